@@ -1,23 +1,40 @@
 """Shared by checks/c02.py and checks/c06.py: the harness `multi`, the extracted model of
 CompressMulti (model/Multi.v, driver ocaml/multi_driver.ml), trace parsing and the
 implementation/model comparison."""
-import os, re
+import os, re, subprocess, threading
 import vlib
 
 FLAG_CATABLE, FLAG_APPENDABLE, FLAG_MAGIC, FLAG_FAVOR, FLAG_LARGE = 1, 2, 4, 8, 16
 
 
+def size_hint_cuts():
+    """the input sizes at which ChooseHasher (encode.rs) changes its choice: every `size_hint >= / > / <= (1 << k)`
+    in its body, read from the source of the tree under test"""
+    cuts = set()
+    try:
+        src = open(os.path.join(vlib.REPO, "src", "enc", "encode.rs")).read()
+        m = re.search(r"fn ChooseHasher\b.*?\n}\n", src, re.S)
+        body = m.group(0) if m else src
+        for x in re.finditer(r"size_hint\s*(?:>=|<=|>|<)\s*\(?\s*\(?\s*1(?:i32|u32|usize|u64)?\s*<<\s*(\d+)", body):
+            cuts.add(int(x.group(1)))
+    except Exception:
+        pass
+    return sorted(cuts) or [20, 22]
+
+
 class Case:
     """one call of CompressMulti"""
 
-    def __init__(self, sp, q, w, f, t, kind, n, seed, out="bound", hint=0, profile="dev"):
+    def __init__(self, sp, q, w, f, t, kind, n, seed, out="bound", hint=0, profile="dev", lb=0):
         self.sp, self.q, self.w, self.f, self.t = sp, q, w, f, t
-        self.kind, self.n, self.seed, self.out, self.hint, self.profile = kind, n, seed, out, hint, profile
+        self.kind, self.n, self.seed, self.out, self.hint, self.profile, self.lb = kind, n, seed, out, hint, profile, lb
 
     def line(self, trace=True):
         s = "R sp=%s q=%d w=%d f=%d t=%d in=%s:%d:%d out=%s" % (self.sp, self.q, self.w, self.f, self.t, self.kind, self.n, self.seed, self.out)
         if self.hint:
             s += " hint=%d" % self.hint
+        if self.lb:
+            s += " lb=%d" % self.lb
         if trace:
             s += " tr=1"
         return s
@@ -27,17 +44,17 @@ class Case:
 
     def group_key(self):
         """everything the output may depend on (C06): input, settings without the favor bit, thread count"""
-        return (self.kind, self.n, self.seed, self.q, self.w, self.f & ~FLAG_FAVOR, self.t, self.hint, self.out)
+        return (self.kind, self.n, self.seed, self.q, self.w, self.f & ~FLAG_FAVOR, self.t, self.hint, self.out, self.lb)
 
     def case(self):
         return {"spawner": self.sp.split(":")[0], "spawner_arg": self.sp, "quality": self.q, "lgwin": self.w,
                 "catable": bool(self.f & 1), "appendable": bool(self.f & 2), "magic": bool(self.f & 4),
                 "favor_cpu_efficiency": bool(self.f & 8), "large_window": bool(self.f & 16), "flags": self.f,
                 "threads": self.t, "input_kind": self.kind, "input_len": self.n, "input_seed": self.seed,
-                "out": self.out, "size_hint": self.hint, "profile": self.profile, "line": self.line()}
+                "out": self.out, "size_hint": self.hint, "lgblock": self.lb, "profile": self.profile, "line": self.line()}
 
     def with_(self, **kw):
-        c = Case(self.sp, self.q, self.w, self.f, self.t, self.kind, self.n, self.seed, self.out, self.hint, self.profile)
+        c = Case(self.sp, self.q, self.w, self.f, self.t, self.kind, self.n, self.seed, self.out, self.hint, self.profile, self.lb)
         for k, v in kw.items():
             setattr(c, k, v)
         return c
@@ -51,7 +68,7 @@ def case_from_line(line, profile="dev"):
         d[k] = v
     kind, n, seed = d.get("in", "text:0:1").split(":")[:3]
     return Case(d.get("sp", "thr"), int(d.get("q", 5)), int(d.get("w", 22)), int(d.get("f", 0)), int(d.get("t", 2)),
-                kind, int(n), int(seed), d.get("out", "bound"), int(d.get("hint", 0)), profile)
+                kind, int(n), int(seed), d.get("out", "bound"), int(d.get("hint", 0)), profile, int(d.get("lb", 0)))
 
 
 class Ans:
@@ -59,14 +76,17 @@ class Ans:
 
     def __init__(self, text):
         self.text = text
+        self.notrun = text.startswith("TOOL-NOTRUN")
         self.trace = ""
         head = text
         if " T=" in text:
             head, self.trace = text.split(" T=", 1)
         self.head = head
-        m = re.match(r"^(OK n=(\d+)|OK-OVERRUN n=(\d+)|ERR:(\S+)|PANIC\((.*)\)|TOOL-\S+.*|BADREQ)(?: back=(\S+) bound=(\d+) dec=(\S+) h=(\d+))?", head)
-        self.kind, self.n, self.err, self.panic = "?", None, None, None
+        m = re.match(r"^(OK n=(\d+)|OK-OVERRUN n=(\d+)|ERR:(\S+)|PANIC\((.*)\)|NORETURN\((.*)\)|TOOL-\S+.*|BADREQ)(?: back=(\S+) bound=(\d+) dec=(\S+) h=(\d+))?", head)
+        self.kind, self.n, self.err, self.panic, self.stuck = "?", None, None, None, None
         self.back, self.bound, self.dec, self.h = "?", None, "na", 0
+        self.served, self.ooo, self.ms = None, 0, 0
+        self.history = []       # earlier requests of the same process that shaped the state this call met (reused pool)
         if m:
             if m.group(2) is not None:
                 self.kind, self.n = "OK", int(m.group(2))
@@ -78,13 +98,27 @@ class Ans:
                 self.kind, self.panic = "PANIC", m.group(5)
                 if self.panic.startswith("worker:"):
                     self.kind = "HANG"      # a pool worker died with its job: the join never returns
+            elif m.group(6) is not None:
+                # the watchdog of the harness: the call had not returned when its time budget ran out
+                self.kind, self.stuck = "NORETURN", m.group(6)
             else:
-                self.kind = "TOOL"
-            if m.group(6) is not None:
-                self.back, self.bound, self.dec, self.h = m.group(6), int(m.group(7)), m.group(8), int(m.group(9))
+                self.kind = "TOOL"          # the harness process died / was killed / was not run: never an agreement
+            if m.group(7) is not None:
+                self.back, self.bound, self.dec, self.h = m.group(7), int(m.group(8)), m.group(9), int(m.group(10))
+            x = re.search(r" served=(\d+) ooo=(\d)", head)
+            if x:
+                self.served, self.ooo = int(x.group(1)), int(x.group(2))
+            x = re.search(r" ms=(\d+)", head)
+            if x:
+                self.ms = int(x.group(1))
         self.ev = [e for e in self.trace.split(",") if e]
 
+    def failed_to_return(self):
+        return self.kind in ("PANIC", "HANG", "NORETURN", "TOOL")
+
     def result_str(self):
+        if self.kind == "NORETURN":
+            return "NORETURN(%s)" % self.stuck
         if self.kind == "OK":
             return "OK n=%d" % self.n
         if self.kind == "ERR":
@@ -269,44 +303,139 @@ def build_model():
     return (okx and okm), (logx if not okx else logm), model
 
 
-def rerun_lost(exe, lines, outs, timeout=300):
-    """a process that aborts or times out loses the answers of all its remaining lines: run every
-    line without an answer again in a process of its own, so that only the line that really
-    brings the process down keeps the TOOL-... outcome"""
-    lost = [k for k, o in enumerate(outs) if o.startswith("TOOL-")]
-    for b in range(0, len(lost), 32):
-        batch = lost[b:b + 32]
-        again = vlib.run_lines(exe, [lines[k] for k in batch], shards=len(batch), timeout=timeout)
-        for k, o in zip(batch, again):
-            outs[k] = o
-    return outs
+class HangBudget:
+    """how many processes of one check run may hang or die before the runner stops restarting the
+    rest of their requests (bounds the cost of a defect that makes calls hang: every hang costs the
+    watchdog's budget of wall time)"""
+
+    def __init__(self, total=5, per_shard=1):
+        self.total, self.per_shard, self.used = total, per_shard, 0
+        self.lock = threading.Lock()
+
+    def take(self):
+        with self.lock:
+            self.used += 1
+            return self.used <= self.total
+
+    def exhausted(self):
+        with self.lock:
+            return self.used >= self.total
 
 
-def run_contiguous(exe, cases, timeout=900, shards=vlib.NCPU):
-    """consecutive cases go to the same process (pool reuse); returns Ans list"""
-    lines = [c.line() for c in cases]
-    outs = vlib.run_lines(exe, lines, shards=shards, timeout=timeout)
-    outs = outs + ["TOOL-MISSING"] * (len(lines) - len(outs))
-    return [Ans(o) for o in rerun_lost(exe, lines, outs)]
+def run_shards(exe, shard_lines, budget=None, timeout=1500):
+    """every list of request lines runs in ONE process, in order (later requests meet the worker
+    pools that earlier `poolr` requests left behind).  The harness answers line by line and, when a
+    call does not return, answers NORETURN for it and ends the process; a process that dies or is
+    killed leaves its current request without an answer.  In both cases the request that was
+    running KEEPS that outcome (it is never run again in a fresh process: there the state that made it
+    fail is gone) and the requests after it are run in a new process.  Requests that are not run at
+    all (budget of hangs exhausted) are answered TOOL-NOTRUN: they are never counted as agreement.
+    returns per shard (answers, starts): starts[k] = index of the first request of the process that ran request k"""
+    budget = budget or HangBudget()
+    res = [None] * len(shard_lines)
 
+    def work(si):
+        lines = shard_lines[si]
+        outs, starts = [None] * len(lines), [0] * len(lines)
+        pos, stops = 0, 0
+        while pos < len(lines):
+            p = subprocess.Popen([exe], stdin=subprocess.PIPE, stdout=subprocess.PIPE, stderr=subprocess.PIPE, text=True, preexec_fn=vlib._unlimit_stack)
+            why = None
+            try:
+                o, er = p.communicate("\n".join(lines[pos:]) + "\n", timeout=timeout)
+            except subprocess.TimeoutExpired:
+                p.kill()
+                o, er = p.communicate()
+                why = "TOOL-TIMEOUT(the harness process was killed after %ds)" % timeout
+            got = (o or "").split("\n")[:-1]          # complete answer lines only
+            got = got[:len(lines) - pos]
+            for j, g in enumerate(got):
+                outs[pos + j], starts[pos + j] = g, pos
+            k = pos + len(got)
+            if k >= len(lines):
+                break
+            if got and got[-1].startswith("NORETURN"):
+                nxt = k                                  # the harness gave its verdict and ended the process
+            else:
+                outs[k] = why or "TOOL-CRASH(the harness process ended with status %s while this request was running: %s)" % (
+                    p.returncode, (er or "").strip()[-300:].replace("\n", " "))
+                starts[k] = pos
+                nxt = k + 1
+            stops += 1
+            if not budget.take() or stops > budget.per_shard:
+                for j in range(nxt, len(lines)):
+                    outs[j], starts[j] = "TOOL-NOTRUN(%d processes of this run hung or died before; not started)" % budget.used, nxt
+                break
+            pos = nxt
+        res[si] = (outs, starts)
 
-def run_impl(exe, cases, timeout=900, shards=vlib.NCPU):
-    """interleave the cases over the shards so that slow configurations spread out"""
-    lines = [c.line() for c in cases]
-    if not lines:
-        return []
-    idx = []
-    shards = max(1, min(shards, len(lines)))
-    for k in range(shards):
-        idx.extend(range(k, len(lines), shards))
-    plines = [lines[i] for i in idx]
-    outs = vlib.run_lines(exe, plines, shards=shards, timeout=timeout)
-    outs = outs + ["TOOL-MISSING"] * (len(plines) - len(outs))
-    outs = rerun_lost(exe, plines, outs)
-    res = [None] * len(lines)
-    for pos, i in enumerate(idx):
-        res[i] = Ans(outs[pos])
+    ths = [threading.Thread(target=work, args=(i,)) for i in range(len(shard_lines))]
+    for t in ths:
+        t.start()
+    for t in ths:
+        t.join()
     return res
+
+
+def _history(cases, starts, k):
+    """the earlier requests of the same process that used the same reused pool as request k"""
+    c = cases[k]
+    if not c.sp.startswith("poolr"):
+        return []
+    return [cases[j].line() for j in range(starts[k], k) if cases[j].sp == c.sp]
+
+
+def cost(c):
+    """rough relative cost of a call (for spreading the work over the processes)"""
+    f = 40 if c.q >= 10 else 4 if c.q >= 9 else 2 if c.q >= 5 else 1
+    return 30000 + c.n * f
+
+
+def run_bins(exe, bins, budget=None, timeout=1500):
+    """bins: lists of cases, one process each -> dict id(case) -> Ans (with .history filled)"""
+    bins = [b for b in bins if b]
+    out = {}
+    rs = run_shards(exe, [[c.line() for c in b] for b in bins], budget, timeout)
+    for b, (outs, starts) in zip(bins, rs):
+        for k, c in enumerate(b):
+            a = Ans(outs[k] if outs[k] is not None else "TOOL-MISSING")
+            a.history = _history(b, starts, k)
+            out[id(c)] = a
+    return out
+
+
+def run_units(exe, units, budget=None, timeout=1500, shards=vlib.NCPU):
+    """units = lists of cases that must stay together, in order, in one process (a group whose
+    consecutive poolr requests meet the same pool; a scripted history of one pool).  Units are
+    spread over `shards` processes by estimated cost.  returns the answers in the order of the units' cases"""
+    shards = max(1, min(shards, len(units)))
+    bins, load = [[] for _ in range(shards)], [0] * shards
+    order = sorted(range(len(units)), key=lambda u: -sum(cost(c) for c in units[u]))
+    place = {}
+    for u in order:
+        b = load.index(min(load))
+        place[u] = b
+        load[b] += sum(cost(c) for c in units[u])
+    for u in range(len(units)):          # inside a process the units keep their generation order
+        bins[place[u]].extend(units[u])
+    got = run_bins(exe, bins, budget, timeout)
+    return [got[id(c)] for u in units for c in u]
+
+
+def run_impl(exe, cases, timeout=1500, shards=vlib.NCPU, budget=None):
+    """every case is a unit of its own; the cases are dealt round the processes so that slow configurations spread out"""
+    if not cases:
+        return []
+    shards = max(1, min(shards, len(cases)))
+    bins = [[cases[i] for i in range(k, len(cases), shards)] for k in range(shards)]
+    got = run_bins(exe, bins, budget, timeout)
+    return [got[id(c)] for c in cases]
+
+
+def run_sequence(exe, lines, timeout=1500):
+    """replay: the given request lines in one process; -> list of Ans"""
+    outs, _ = run_shards(exe, [list(lines)], HangBudget(1, 0), timeout)[0]
+    return [Ans(o if o is not None else "TOOL-MISSING") for o in outs]
 
 
 def run_model(model, cases, answers, rng, ver="cur"):
@@ -320,7 +449,11 @@ def c02_spec(c, a):
     """list of (what, kind) violations of the property on one call"""
     bad = []
     if a.kind == "TOOL":
-        bad.append("the call did not return (harness: %s)" % a.head[:120])
+        bad.append("the call did not return (harness: %s)" % a.head[:200])
+        return bad
+    if a.kind == "NORETURN":
+        bad.append("the call had not returned when the watchdog of the harness gave up (%s)%s" % (
+            a.stuck[:300], "; %d earlier calls on the same pool in this process" % len(a.history) if a.history else ""))
         return bad
     if a.kind == "PANIC":
         bad.append("panic: " + a.panic[:160])
@@ -332,6 +465,9 @@ def c02_spec(c, a):
         bad.append("success reported with more bytes (%d) than the buffer holds" % a.n)
     if a.kind == "OK" and a.dec != "ok":
         bad.append("success with %d bytes that do not decode to the input" % a.n)
+    if a.kind == "?":
+        bad.append("unreadable answer of the harness: %s" % a.head[:120])
+        return bad
     enough = c.out == "bound" or c.out.startswith("bound+")
     fault = c.sp.split(":")[0] in ("fail", "failview", "failunwrap")
     if enough and c.q >= 2 and a.kind != "OK" and not fault:
